@@ -1,4 +1,4 @@
-import PhyModel.Proofs.StoreWF_Upd
+import PhyModel.Proofs.StoreWF_Upd2
 /-! C07: `addDataPointToNode` preserves well-formedness, keeps the clone names, adds exactly the data
 point to `_data` (which gives the target its key). -/
 namespace PhyModel.Store
@@ -8,7 +8,9 @@ open PhyModel PhyModel.Store PhyModel.Store.Store SF AL
 theorem addDp_spec {dt : Data} {s s' : Store} {dp : Nat} {node : Int}
     (h : s.addDataPointToNode dt dp node = some s') (hw : WF s) :
     WF s' ∧ s'.forest.names = s.forest.names ∧ s'.forest.numNodes = s.forest.numNodes ∧
-      s'.data = alSet s.data node (s.dataOf node ++ [dp]) ∧ dp ∉ vals s.data := by
+      s'.data = alSet s.data node (s.dataOf node ++ [dp]) ∧ dp ∉ vals s.data ∧
+      (∀ n' ∈ s'.forest.recs, ∃ m ∈ s.forest.recs, n'.name = m.name ∧
+        n'.dps = if m.name = node then m.dps ++ [dp] else m.dps) := by
   unfold addDataPointToNode at h
   simp only [Option.bind_eq_bind, Option.pure_def] at h
   split at h
@@ -21,7 +23,11 @@ theorem addDp_spec {dt : Data} {s s' : Store} {dp : Nat} {node : Int}
     rename_i hout
     have hout : node = outKey := by simpa using hout
     simp only [Option.some.injEq] at h; subst h
-    refine ⟨?_, rfl, rfl, rfl, hdp⟩
+    refine ⟨?_, rfl, rfl, rfl, hdp, fun n' hn' => ⟨n', hn', rfl, ?_⟩⟩
+    swap
+    · have : n'.name ≠ node := fun hc => by
+        have := hw.name_nonneg n' hn'; rw [hc, hout] at this; simp [outKey] at this
+      rw [if_neg this]
     rw [wf_iff]
     refine ⟨hw.g, hw.m, ?_⟩
     have := hw.d.mapg_alSet (g := id) (node := node) (v := dOf s.data node ++ [dp])
@@ -62,7 +68,20 @@ theorem addDp_spec {dt : Data} {s s' : Store} {dp : Nat} {node : Int}
         simp only [hmi, if_false, hne]; exact hw.d.payload_data m hm
     have hnm : s'.forest.recs.map (·.name) = s.forest.recs.map (·.name) :=
       (hs.map_eq (·.name) fun _ _ _ h => h).trans (map_name_of_keep hg)
-    refine ⟨?_, hnm, ?_, ?_, hdp⟩
+    refine ⟨?_, hnm, ?_, ?_, hdp, fun n' hn' => ?_⟩
+    rotate_left 3
+    · have hc' := hc
+      simp only [SF.cores, recs_setRec] at hc'
+      obtain ⟨m, hm, hcm⟩ := mem_of_map_core_eq hc' hn'
+      simp only [core, Prod.mk.injEq] at hcm
+      refine ⟨m, hm, hcm.2.1.trans (hg m hm).1, ?_⟩
+      rw [hcm.2.2]
+      by_cases hmi : m.idx = i
+      · have : m = x.1 := hw.g.eq_of_idx hm hxm (hmi.trans hxi.symm)
+        subst this; simp [hmi, hxn, hd']
+      · have hne : m.name ≠ node := fun hc' =>
+          hmi ((congrArg NodeRec.idx (hw.g.eq_of_name hm hxm (hc'.trans hxn.symm))).trans hxi)
+        simp [hmi, hne]
     · rw [wf_iff, h1, h2, h3]
       exact ⟨(hw.g.mapg hg).same hs, (hw.m.mapg hg).same hs, by simpa [appendData, dataOf_eq] using hd.same hs⟩
     · rw [numNodes_eq, numNodes_eq]; simpa using congrArg List.length hnm
@@ -75,7 +94,7 @@ theorem addDp_wf {dt : Data} {s s' : Store} {dp : Nat} {node : Int}
 theorem addDp_full {dt : Data} {s s' : Store} {dp : Nat} {node : Int}
     (h : s.addDataPointToNode dt dp node = some s') (hw : WF s)
     (hf : ∀ n ∈ s.forest.recs, n.name ≠ node → n.name ∈ keys s.data) : Full s' := by
-  obtain ⟨_, hn, _, hd, _⟩ := addDp_spec h hw
+  obtain ⟨_, hn, _, hd, _, _⟩ := addDp_spec h hw
   intro n hn'
   have : n.name ∈ s.forest.names := hn ▸ mem_names.2 ⟨n, hn', rfl⟩
   obtain ⟨m, hm, hmn⟩ := mem_names.1 this
@@ -91,7 +110,7 @@ theorem addDp_inv {dt : Data} {s s' : Store} {dp : Nat} {node : Int}
 
 theorem addDp_dense {dt : Data} {s s' : Store} {dp : Nat} {node : Int}
     (h : s.addDataPointToNode dt dp node = some s') (hw : WF s) (hd : Dense s) : Dense s' := by
-  obtain ⟨_, hn, hnum, _, _⟩ := addDp_spec h hw
+  obtain ⟨_, hn, hnum, _, _, _⟩ := addDp_spec h hw
   intro n hn'
   have : n.name ∈ s.forest.names := hn ▸ mem_names.2 ⟨n, hn', rfl⟩
   obtain ⟨m, hm, hmn⟩ := mem_names.1 this
@@ -101,11 +120,16 @@ theorem addDp_dense {dt : Data} {s s' : Store} {dp : Nat} {node : Int}
 /-- data conservation: exactly `dp` is added -/
 theorem addDp_data {dt : Data} {s s' : Store} {dp : Nat} {node : Int}
     (h : s.addDataPointToNode dt dp node = some s') (hw : WF s) : (vals s'.data).Perm (dp :: vals s.data) := by
-  obtain ⟨_, _, _, hd, _⟩ := addDp_spec h hw
+  obtain ⟨_, _, _, hd, _, _⟩ := addDp_spec h hw
   rw [hd]
   refine (vals_alSet_perm hw.d.data_keys node _).trans ?_
   refine List.Perm.trans ?_ (List.Perm.cons dp (vals_perm_split hw.d.data_keys node).symm)
   rw [dataOf_eq, List.append_assoc]
   exact (List.perm_append_comm_assoc _ _ _).trans (by simp)
+
+theorem addDp_aligned {dt : Data} {s s' : Store} {dp : Nat} {node : Int}
+    (h : s.addDataPointToNode dt dp node = some s') (hw : WF s) (ha : Aligned s) : Aligned s' := by
+  obtain ⟨_, _, _, hd, _, hr⟩ := addDp_spec h hw
+  exact aligned_of_update (f := fun l => l ++ [dp]) ha hd hr
 
 end PhyModel.Store
